@@ -90,6 +90,27 @@ func programCnew(rk, ps, nk int) *js.Program {
 		tryStmt(js.Log(str("del"), &js.Unary{Op: "delete", X: js.Dot(i, "p")}, js.Dot(i, "p"))),
 		js.Log(str("o"), js.Dot(js.Id("o"), "p")),
 	)
+	// objects that ARE (or sit beside) the prototype: F.prototype itself, Object.prototype, an object whose
+	// prototype is F.prototype's prototype, a null-prototype object, primitives; F plain / bound / native
+	inst := func(l, r js.Expr) js.Expr { return bin("instanceof", l, r) }
+	oproto := js.Dot(js.Id("Object"), "prototype")
+	bproto := js.Dot(js.Id("B"), "prototype")
+	create := func(x js.Expr) js.Expr { return js.CallE(js.Dot(js.Id("Object"), "create"), x) }
+	getproto := func(x js.Expr) js.Expr { return js.CallE(js.Dot(js.Id("Object"), "getPrototypeOf"), x) }
+	p.Body = append(p.Body,
+		js.Var("bf", js.CallE(js.Dot(F, "bind"), &js.NullLit{})),
+		tryStmt(js.Log(str("proto-self"), inst(proto, F), inst(bproto, js.Id("B")), inst(oproto, js.Id("Object")),
+			inst(js.Dot(js.Id("Function"), "prototype"), js.Id("Function")), inst(js.Dot(js.Id("Array"), "prototype"), js.Id("Array")),
+			inst(js.Dot(js.Id("Error"), "prototype"), js.Id("Error")), inst(js.Dot(js.Id("TypeError"), "prototype"), js.Id("Error")))),
+		tryStmt(js.Log(str("proto-bound"), inst(proto, js.Id("bf")), inst(i, js.Id("bf")), inst(oproto, js.Id("bf")))),
+		tryStmt(js.Log(str("sibling"), inst(create(getproto(proto)), F), inst(create(proto), F), inst(create(&js.NullLit{}), F),
+			inst(create(&js.NullLit{}), js.Id("Object")))),
+		tryStmt(js.Log(str("prims"), inst(js.N(5), F), inst(str("s"), F), inst(&js.Bool{V: true}, F), inst(&js.NullLit{}, F),
+			inst(js.Id("undefined"), F), inst(js.N(5), js.Id("Number")), inst(str("s"), js.Id("String")))),
+		tryStmt(js.Log(str("isProto-self"), js.CallE(js.Dot(proto, "isPrototypeOf"), proto), js.CallE(js.Dot(oproto, "isPrototypeOf"), oproto),
+			js.CallE(js.Dot(oproto, "isPrototypeOf"), proto), js.CallE(js.Dot(proto, "isPrototypeOf"), create(proto)),
+			js.CallE(js.Dot(oproto, "isPrototypeOf"), create(&js.NullLit{})), js.CallE(js.Dot(proto, "isPrototypeOf"), js.N(5)))),
+	)
 	if nk == 2 || nk == 3 {
 		p.Body = append(p.Body, tryStmt(js.Log(str("boundinst"), bin("instanceof", i, js.Id("bound")))))
 	}
